@@ -6,11 +6,11 @@ Recs == ndJsonDeserialize(IOEnv.RECS)
 
 Why(r) ==
   IF ~r.parsed THEN {"not_parsed"}                                   \* generated text must be GraphQL
-  ELSE LET valid == ValidQuery(r.q) IN
-     (IF valid /\ ~r.prepared THEN {"valid_query_rejected"} ELSE {})
+  ELSE LET valid == ValidQuery(r.q)  foreign == HasForeignFragment(r.q) IN
+     (IF valid /\ ~foreign /\ ~r.prepared THEN {"valid_query_rejected"} ELSE {})
   \cup (IF ~valid /\ r.prepared THEN {"invalid_query_accepted"} ELSE {})
   \cup (IF r.prepared /\ r.outcome # "ok" THEN {"accepted_query_failed_" \o r.outcome} ELSE {})
-  \cup (IF r.prepared /\ r.outcome = "ok" /\ valid /\ ~ConformsQuery(r.res, r.q) THEN {"response_does_not_conform"} ELSE {})
+  \cup (IF r.prepared /\ r.outcome = "ok" /\ valid /\ ~foreign /\ ~ConformsQuery(r.res, r.q) THEN {"response_does_not_conform"} ELSE {})
 
 VARIABLES l, bad
 Init == l = 1 /\ bad = <<>>
